@@ -670,3 +670,630 @@ def _decides_notify(fl, nid):
 
 for _k in ("list", "dict", "set"):
     delta_rule(_k)
+
+
+# ---------------------------------------------------------------------------
+# helpers: comparison constraints and linear length expressions
+
+_NEG = {"<": ">=", "<=": ">", ">": "<=", ">=": "<", "==": "!=", "!=": "=="}
+_OPS = {ast.Lt: "<", ast.LtE: "<=", ast.Gt: ">", ast.GtE: ">=",
+        ast.Eq: "==", ast.NotEq: "!=", ast.Is: "is", ast.IsNot: "is not"}
+
+
+def _canon(a, op, b):
+    """(x, '<'|'<=', y) canonical form of an ordering constraint."""
+    if op in (">", ">="):
+        return (b, "<" if op == ">" else "<=", a)
+    return (a, op, b)
+
+
+def compare_links(test):
+    """Links of a Compare as [(lhs_text, op, rhs_text)] or None."""
+    if not isinstance(test, ast.Compare):
+        return None
+    out, left = [], test.left
+    for op, right in zip(test.ops, test.comparators):
+        o = _OPS.get(type(op))
+        if o is None:
+            return None
+        out.append((norm(left), o, norm(right)))
+        left = right
+    return out
+
+
+def constraints_of(test, truth):
+    """Ordering constraints implied by ``test`` evaluating to ``truth``:
+    list of canonical triples, plus ('NOTALL', frozenset(triples)) for a false
+    chain."""
+    links = compare_links(test)
+    if not links:
+        return []
+    if truth:
+        return [_canon(*l) for l in links if l[1] in ("<", "<=", ">", ">=")]
+    if len(links) == 1:
+        a, op, b = links[0]
+        if op in _NEG and op in ("<", "<=", ">", ">="):
+            return [_canon(a, _NEG[op], b)]
+        return []
+    return [("NOTALL", frozenset(_canon(*l) for l in links))]
+
+
+class FactFlow(PyFlow):
+    """Collects, per path, the set of (atomic test text, truth) facts and the
+    ordering constraints they imply.  State = frozenset of facts."""
+
+    def assume(self, test, truth, state):
+        facts = set(state)
+        facts.add(("T" if truth else "F", norm(test)))
+        for c in constraints_of(test, truth):
+            facts.add(("C", c))
+        return frozenset(facts)
+
+
+# ---------------------------------------------------------------------------
+# C04.length-test: _validate_length rejects exactly outside minlen..maxlen
+
+@rule("C04.length-test", ["C04"],
+      "_validate_length raises iff not (minlen <= new_length <= maxlen)")
+def c04_length_test(ctx, res):
+    repo, classes = container_classes(ctx)
+    mod, base, obj = classes["list"]
+    if "_validate_length" not in obj.methods:
+        raise AnalysisError("TraitListObject._validate_length missing")
+    fn = obj.methods["_validate_length"]
+    n = fn.args.args[1].arg
+
+    class F(FactFlow):
+        pass
+    fl = F(mod, fn, "TraitListObject._validate_length")
+    fl.run(frozenset())
+    g = fl.cfg
+
+    def is_len_attr(t, attr):
+        return t.endswith("." + attr)
+
+    def bound(c):
+        """classify canonical triple: 'lo' = minlen <= n, 'lo!' = n < minlen,
+        'hi' = n <= maxlen, 'hi!' = maxlen < n, or None"""
+        a, op, b = c
+        if is_len_attr(a, "minlen") and b == n:
+            return "lo" if op == "<=" else "lo-strict"
+        if a == n and is_len_attr(b, "minlen"):
+            return "lo!" if op == "<" else "lo!-weak"
+        if a == n and is_len_attr(b, "maxlen"):
+            return "hi" if op == "<=" else "hi-strict"
+        if is_len_attr(a, "maxlen") and b == n:
+            return "hi!" if op == "<" else "hi!-weak"
+        return None
+
+    res.instance("TraitListObject._validate_length", mod.loc(fn),
+                 exit_states=len(fl.states[g.exit.id]),
+                 raise_states=len(fl.states[g.raise_exit.id]))
+    # accepting paths: either the trait is None (detached list) or both bounds
+    for st in fl.states[g.exit.id]:
+        cs = {bound(c[1]) for c in st if c[0] == "C" and c[1][0] != "NOTALL"}
+        none_path = any(f[0] == "T" and " is None" in f[1] for f in st)
+        ok = none_path or {"lo", "hi"} <= cs
+        res.oblige(ok, "TraitListObject._validate_length:accept",
+                   mod.loc(fn),
+                   f"a path accepts new_length without establishing "
+                   f"minlen <= {n} <= maxlen (facts: "
+                   f"{sorted(str(x) for x in st)})")
+    rej = 0
+    for st in fl.states[g.raise_exit.id]:
+        cs = set()
+        for c in st:
+            if c[0] != "C":
+                continue
+            if c[1][0] == "NOTALL":
+                if {bound(x) for x in c[1][1]} == {"lo", "hi"}:
+                    cs.add("notall")
+            else:
+                cs.add(bound(c[1]))
+        if not (cs & {"lo!", "hi!", "notall"}):
+            # an exception edge out of a call before the test is not the
+            # rejection path; only paths that passed a bound test count
+            if not any(c[0] == "C" for c in st):
+                continue
+            res.violation("TraitListObject._validate_length:reject",
+                          mod.loc(fn),
+                          f"rejection path does not correspond to a violated "
+                          f"bound: {sorted(str(x) for x in st)}")
+        else:
+            rej += 1
+            res.oblige(True, "", "", "")
+    res.oblige(rej > 0, "TraitListObject._validate_length:has-reject",
+               mod.loc(fn), "no path raises for an out-of-bounds length")
+    # the raise is a TraitError
+    raises = [x for x in ast.walk(fn) if isinstance(x, ast.Raise)]
+    res.oblige(bool(raises) and all(
+        isinstance(r.exc, ast.Call) and norm(r.exc.func) == "TraitError"
+        for r in raises), "TraitListObject._validate_length:TraitError",
+        mod.loc(fn), "length rejection is not a TraitError")
+
+
+# ---------------------------------------------------------------------------
+# C04.length-guard
+
+LENGTH_CHANGING = ["__delitem__", "__iadd__", "__imul__", "__setitem__",
+                   "append", "clear", "extend", "insert", "pop", "remove"]
+
+
+class LengthGuardFlow(PyFlow):
+    """state = (guarded: bool, facts: frozenset)"""
+
+    def __init__(self, repo, module, cls, func):
+        super().__init__(module, func, f"{cls.name}.{func.name}")
+        self.repo, self.cls = repo, cls
+        self.guards = []     # ast Call nodes
+        self.supers = 0
+        a = func.args
+        self.params = [x.arg for x in a.args]
+        self.selfname = self.params[0]
+
+    def classify(self, e, node):
+        if is_self_call(e, "_validate_length", self.selfname):
+            return [("G", True)]
+        m = is_super_call(e)
+        if m is not None and (m in MUTATORS["list"] or m == "__init__"):
+            return [("S", True)]
+        return []
+
+    def step(self, state, ev, e, node):
+        guarded, facts = state
+        if ev == "G":
+            if e not in self.guards:
+                self.guards.append(e)
+            return (True, facts)
+        if ev == "S":
+            self.supers += 1
+            if not guarded:
+                ok = False
+                if self.func.name == "__setitem__" and len(self.params) > 1:
+                    k = self.params[1]
+                    notslice = ("F", f"isinstance({k}, slice)") in facts
+                    extended = {("F", f"{k}.step is None"),
+                                ("F", f"{k}.step == 1")} <= facts
+                    ok = notslice or extended
+                if not ok:
+                    self.flag(("length-guard", norm(e)),
+                              f"`{norm(e)}` reachable without a preceding "
+                              f"self._validate_length(...) on this path")
+            return state
+        return state
+
+    def assume(self, test, truth, state):
+        guarded, facts = state
+        return (guarded, facts | {("T" if truth else "F", norm(test))})
+
+
+@rule("C04.length-guard", ["C04"],
+      "every length-changing mutation of TraitListObject is preceded by "
+      "_validate_length on every path")
+def c04_length_guard(ctx, res):
+    repo, classes = container_classes(ctx)
+    mod, base, obj = classes["list"]
+    for m in LENGTH_CHANGING + ["__init__"]:
+        key = f"{obj.name}.{m}"
+        if m not in obj.methods:
+            res.instance(key, mod.loc(obj.node))
+            res.violation(key + ":not-overridden", mod.loc(obj.node),
+                          f"length-changing mutator {m} is not overridden in "
+                          f"{obj.name}: minlen/maxlen would not be enforced")
+            continue
+        fn = obj.methods[m]
+        fl = LengthGuardFlow(repo, mod, obj, fn)
+        fl.run((False, frozenset()))
+        res.instance(key, mod.loc(fn), guards=[norm(g) for g in fl.guards])
+        if fl.supers == 0:
+            res.violation(key + ":no-delegation", mod.loc(fn),
+                          "override never delegates to the validated "
+                          "TraitList implementation")
+            continue
+        hits = fl.findings()
+        for k, msg, loc, path in hits:
+            res.violation(f"{key}:{k[0]}", loc, msg, path)
+        if not hits:
+            res.oblige(True, key, "", "")
+        # the guard must be about the *new length of this list*
+        for gcall in fl.guards:
+            arg = gcall.args[0] if gcall.args else None
+            txt = norm(arg) if arg is not None else ""
+            names = names_in(arg) if arg is not None else set()
+            # resolve locals one level
+            for n2 in ast.walk(fn):
+                if isinstance(n2, ast.Assign) and len(n2.targets) == 1 \
+                        and isinstance(n2.targets[0], ast.Name) \
+                        and n2.targets[0].id in names:
+                    txt += " " + norm(n2.value)
+            ok = (f"len({fl.selfname})" in txt
+                  or (isinstance(arg, ast.Constant) and arg.value == 0)
+                  or (m == "__init__" and "len(" in txt))
+            res.oblige(ok, f"{key}:guard-arg", mod.loc(gcall),
+                       f"_validate_length argument `{norm(arg)}` is not "
+                       f"derived from len(self)")
+    res.floor(11)
+
+
+# ---------------------------------------------------------------------------
+# C04.length-expr (Tier B): the guard's argument is the data-model length
+
+class Lin:
+    """Tiny linear-expression normaliser over opaque atoms."""
+
+    def __init__(self, terms=None, const=0):
+        self.terms = dict(terms or {})
+        self.const = const
+
+    def key(self):
+        return (tuple(sorted((k, v) for k, v in self.terms.items() if v)),
+                self.const)
+
+    def add(self, o, sign=1):
+        t = dict(self.terms)
+        for k, v in o.terms.items():
+            t[k] = t.get(k, 0) + sign * v
+        return Lin(t, self.const + sign * o.const)
+
+    def scale(self, k):
+        return Lin({a: v * k for a, v in self.terms.items()}, self.const * k)
+
+    def is_const(self):
+        return not any(self.terms.values())
+
+
+def lin_of(e, subst):
+    """Normalise an int-valued expression.  Returns ('lin', Lin) or
+    ('clamp', Lin) for max(<lin>, 0); raises ValueError when unrecognised."""
+    if isinstance(e, ast.Constant) and isinstance(e.value, int):
+        return ("lin", Lin(const=e.value))
+    if isinstance(e, ast.Name):
+        if e.id in subst:
+            return lin_of(subst[e.id], subst)
+        return ("lin", Lin({e.id: 1}))
+    if isinstance(e, ast.Call) and isinstance(e.func, ast.Name):
+        if e.func.id == "len" and len(e.args) == 1:
+            a = e.args[0]
+            while isinstance(a, ast.Name) and a.id in subst:
+                a = subst[a.id]
+            # len(list(x)) == number of items of x
+            if isinstance(a, ast.Call) and isinstance(a.func, ast.Name) \
+                    and a.func.id == "list" and len(a.args) == 1:
+                a = a.args[0]
+            return ("lin", Lin({f"len({norm(a)})": 1}))
+        if e.func.id == "max" and len(e.args) == 2:
+            parts = [lin_of(a, subst) for a in e.args]
+            zeros = [p for p in parts if p[0] == "lin" and p[1].is_const()
+                     and p[1].const == 0]
+            others = [p for p in parts if p not in zeros]
+            if len(zeros) == 1 and len(others) == 1 and others[0][0] == "lin":
+                return ("clamp", others[0][1])
+        raise ValueError(norm(e))
+    if isinstance(e, ast.BinOp):
+        l, r = lin_of(e.left, subst), lin_of(e.right, subst)
+        if l[0] != "lin" or r[0] != "lin":
+            raise ValueError(norm(e))
+        if isinstance(e.op, ast.Add):
+            return ("lin", l[1].add(r[1]))
+        if isinstance(e.op, ast.Sub):
+            return ("lin", l[1].add(r[1], -1))
+        if isinstance(e.op, ast.Mult):
+            if l[1].is_const():
+                return ("lin", r[1].scale(l[1].const))
+            if r[1].is_const():
+                return ("lin", l[1].scale(r[1].const))
+            # product of two atoms: keep as an opaque commutative atom
+            if len(l[1].key()[0]) == 1 and len(r[1].key()[0]) == 1 \
+                    and not l[1].const and not r[1].const:
+                a, b = sorted([l[1].key()[0][0][0], r[1].key()[0][0][0]])
+                return ("lin", Lin({f"{a}*{b}": 1}))
+        raise ValueError(norm(e))
+    if isinstance(e, ast.IfExp):
+        raise ValueError(norm(e))
+    raise ValueError(norm(e))
+
+
+def _expected_length(m, params, selfname):
+    """New length of a list after mutator ``m`` (Python data model), as
+    (kind, Lin) alternatives keyed by the parameter names in use."""
+    L = Lin({f"len({selfname})": 1})
+    one = Lin(const=1)
+    p = params[1:] + ["?", "?"]
+    if m in ("append", "insert"):
+        return [("lin", L.add(one))]
+    if m == "clear":
+        return [("lin", Lin(const=0))]
+    if m in ("pop", "remove"):
+        return [("clamp", L.add(one, -1))]
+    if m in ("__iadd__", "extend"):
+        return [("lin", L.add(Lin({f"len({p[0]})": 1})))]
+    if m == "__imul__":
+        a, b = sorted([f"len({selfname})", p[0]])
+        return [("clamp", Lin({f"{a}*{b}": 1}))]
+    if m == "__setitem__":
+        return [("lin", L.add(Lin({f"len({selfname}[{p[0]}])": 1}), -1)
+                 .add(Lin({f"len({p[1]})": 1})))]
+    if m == "__delitem__":
+        return [("clamp", L.add(Lin({f"len({selfname}[{p[0]}])": 1}), -1)),
+                ("clamp", L.add(one, -1))]
+    return None
+
+
+@rule("C04.length-expr", ["C04"],
+      "the length passed to _validate_length is the data-model length of the "
+      "list after the operation (linear normal form)")
+def c04_length_expr(ctx, res):
+    repo, classes = container_classes(ctx)
+    mod, base, obj = classes["list"]
+    for m in LENGTH_CHANGING:
+        if m not in obj.methods:
+            continue
+        fn = obj.methods[m]
+        params = [a.arg for a in fn.args.args]
+        selfname = params[0]
+        subst, multi = {}, set()
+        for n2 in ast.walk(fn):
+            if isinstance(n2, ast.Assign) and len(n2.targets) == 1 \
+                    and isinstance(n2.targets[0], ast.Name):
+                nm = n2.targets[0].id
+                if nm in subst:
+                    multi.add(nm)
+                subst[nm] = n2.value
+        # `value = list(value)`: a parameter rebound to its own list copy
+        for nm in list(subst):
+            v = subst[nm]
+            if nm in params and isinstance(v, ast.Call) \
+                    and isinstance(v.func, ast.Name) and v.func.id == "list" \
+                    and len(v.args) == 1 and isinstance(v.args[0], ast.Name) \
+                    and v.args[0].id == nm:
+                del subst[nm]
+        for nm in multi:
+            subst.pop(nm, None)
+        expected = _expected_length(m, params, selfname)
+        calls = [c for c in ast.walk(fn)
+                 if is_self_call(c, "_validate_length", selfname)]
+        for c in calls:
+            key = f"{obj.name}.{m}:length-expr"
+            arg = c.args[0]
+            alts = []
+            if isinstance(arg, ast.Name) and arg.id in subst:
+                arg = subst[arg.id]
+            # removed_count = len(self[key]) if isinstance(key, slice) else 1
+            exprs = [arg]
+            try:
+                exprs = _expand_ifexp(arg, subst)
+                got = [lin_of(x, subst) for x in exprs]
+            except ValueError as e:
+                raise AnalysisError(
+                    f"C04.length-expr: unrecognised length expression "
+                    f"`{norm(c.args[0])}` in {obj.name}.{m} ({e})")
+            res.instance(f"{obj.name}.{m}", mod.loc(c), expr=norm(c.args[0]))
+            exp_keys = {(k, l.key()) for k, l in expected}
+            got_keys = {(k, l.key()) for k, l in got}
+            res.oblige(got_keys == exp_keys, key, mod.loc(c),
+                       f"length checked is `{norm(c.args[0])}` but the list "
+                       f"will have a different length after {m} "
+                       f"(normal forms {sorted(map(str, got_keys))} vs "
+                       f"{sorted(map(str, exp_keys))})")
+    res.floor(10)
+
+
+def _expand_ifexp(e, subst):
+    """Split an expression on the IfExp definitions of its local names."""
+    for n in ast.walk(e):
+        if isinstance(n, ast.Name) and n.id in subst \
+                and isinstance(subst[n.id], ast.IfExp):
+            ife = subst[n.id]
+            out = []
+            for branch in (ife.body, ife.orelse):
+                s2 = dict(subst)
+                s2[n.id] = branch
+                out.extend(_expand_ifexp(e, s2) if False else [(e, s2)])
+            res = []
+            for ex, s2 in out:
+                res.append(_Subst(ex, s2))
+            return res
+    return [e]
+
+
+class _Subst:
+    """expression paired with its own substitution (used by lin_of)"""
+
+    def __init__(self, e, subst):
+        self.e, self.subst = e, subst
+
+
+_lin_of_orig = lin_of
+
+
+def lin_of(e, subst):  # noqa: F811
+    if isinstance(e, _Subst):
+        return _lin_of_orig(e.e, e.subst)
+    return _lin_of_orig(e, subst)
+
+
+# ---------------------------------------------------------------------------
+# C04.wrap: List/Set/Dict.validate wrap the value for a live object
+
+TT = "traits/trait_types.py"
+WRAP = {"List": ("list", "TraitListObject"), "Set": ("set", "TraitSetObject"),
+        "Dict": ("dict", "TraitDictObject")}
+COERCING = {"CList": "List", "CSet": "Set"}
+
+
+class ReturnFlow(FactFlow):
+    """Collect (return expression, facts) for every return statement."""
+
+    def __init__(self, *a, **k):
+        super().__init__(*a, **k)
+        self.returns = []
+
+    def classify(self, e, node):
+        if isinstance(e, ast.Return):
+            return [("RET", False)]
+        return []
+
+    def step(self, state, ev, e, node):
+        self.returns.append((e, state, node.id))
+        return state
+
+
+@rule("C04.wrap", ["C04", "C14"],
+      "List/Set/Dict.validate return a Trait*Object bound to the owner for a "
+      "live object, never the raw container")
+def c04_wrap(ctx, res):
+    repo = get_pyrepo(ctx)
+    mod = repo.module(TT)
+    for cname, (btype, wrapper) in WRAP.items():
+        cls = repo.cls(TT, cname)
+        if "validate" not in cls.methods:
+            raise AnalysisError(f"{cname}.validate missing")
+        fn = cls.methods["validate"]
+        ps = [a.arg for a in fn.args.args]
+        selfn, objn, namen, valn = ps[:4]
+        fl = ReturnFlow(mod, fn, f"{cname}.validate")
+        fl.run(frozenset())
+        res.instance(f"{cname}.validate", mod.loc(fn),
+                     returns=len(fl.returns))
+        wrapped = 0
+        for ret, facts, nid in fl.returns:
+            v = ret.value
+            key = f"{cname}.validate:return:{norm(v) if v else 'None'}"
+            obj_none = ("T", f"{objn} is None") in facts
+            type_ok = ("T", f"isinstance({valn}, {btype})") in facts
+            res.oblige(type_ok, key + ":type", mod.loc(ret),
+                       f"value returned without isinstance({valn}, {btype}) "
+                       f"established on the path")
+            if cname == "List":
+                cs = {c[1] for c in facts if c[0] == "C"}
+                need = {(f"{selfn}.minlen", "<=", f"len({valn})"),
+                        (f"len({valn})", "<=", f"{selfn}.maxlen")}
+                res.oblige(need <= cs, key + ":length", mod.loc(ret),
+                           f"list accepted without minlen <= len({valn}) <= "
+                           f"maxlen on the path (have {sorted(cs)})")
+            if obj_none:
+                res.oblige(True, key, "", "")
+                continue
+            ok = (isinstance(v, ast.Call) and norm(v.func) == wrapper
+                  and [norm(a) for a in v.args] == [selfn, objn, namen, valn]
+                  and not v.keywords)
+            wrapped += ok
+            res.oblige(ok, key, mod.loc(ret),
+                       f"for a live object validate() returns `{norm(v) if v else None}` "
+                       f"instead of {wrapper}({selfn}, {objn}, {namen}, {valn}): "
+                       f"the stored container would not validate or notify")
+        res.oblige(wrapped >= 1, f"{cname}.validate:wraps", mod.loc(fn),
+                   f"no path constructs {wrapper}")
+    for cname, parent in COERCING.items():
+        cls = repo.cls(TT, cname)
+        fn = cls.methods.get("validate")
+        if fn is None:
+            res.instance(f"{cname}.validate", mod.loc(cls.node), note="inherits")
+            res.oblige(True, cname, "", "")
+            continue
+        ps = [a.arg for a in fn.args.args]
+        fl = ReturnFlow(mod, fn, f"{cname}.validate")
+        fl.run(frozenset())
+        res.instance(f"{cname}.validate", mod.loc(fn), returns=len(fl.returns))
+        for ret, facts, nid in fl.returns:
+            v = ret.value
+            ok = (is_super_call(v) == "validate" and len(v.args) == 3
+                  and [norm(a) for a in v.args[:2]] == ps[1:3])
+            res.oblige(ok, f"{cname}.validate:return:{norm(v) if v else None}",
+                       mod.loc(ret),
+                       f"{cname}.validate does not delegate to "
+                       f"{parent}.validate (which wraps the container)")
+    res.floor(5)
+
+
+# ---------------------------------------------------------------------------
+# C04.validator-binding
+
+BINDING = {
+    "list": [("item_validator", "item_trait")],
+    "dict": [("key_validator", "key_trait"), ("value_validator", "value_trait")],
+    "set": [("item_validator", "item_trait")],
+}
+
+
+def _resolve_alias(fn, name):
+    """unique local definition of ``name`` or None"""
+    defs = [n.value for n in ast.walk(fn)
+            if isinstance(n, ast.Assign) and len(n.targets) == 1
+            and isinstance(n.targets[0], ast.Name) and n.targets[0].id == name]
+    return defs[0] if len(defs) == 1 else None
+
+
+@rule("C04.validator-binding", ["C04", "C14"],
+      "Trait*Object binds the inner trait's validate as the element validator "
+      "and returns its result")
+def c04_validator_binding(ctx, res):
+    repo, classes = container_classes(ctx)
+    for kind, (mod, base, obj) in classes.items():
+        init = obj.methods.get("__init__")
+        if init is None:
+            raise AnalysisError(f"{obj.name}.__init__ missing")
+        selfn = init.args.args[0].arg
+        sup = [c for c in ast.walk(init) if is_super_call(c) == "__init__"]
+        if len(sup) != 1:
+            raise AnalysisError(f"{obj.name}.__init__: super().__init__ call "
+                                f"not found exactly once")
+        kws = {k.arg: k.value for k in sup[0].keywords}
+        for kwname, inner in BINDING[kind]:
+            key = f"{obj.name}:{kwname}"
+            v = kws.get(kwname)
+            ok = v is not None and is_self_attr(v, None, selfn)
+            res.instance(key, mod.loc(sup[0]),
+                         bound=norm(v) if v is not None else None)
+            if not res.oblige(ok, key + ":bound", mod.loc(sup[0]),
+                              f"{obj.name}.__init__ does not pass a bound "
+                              f"method as {kwname}= to {base.name}.__init__ "
+                              f"(elements would not be validated)"):
+                continue
+            meth = obj.methods.get(v.attr)
+            if meth is None:
+                res.violation(key + ":method", mod.loc(sup[0]),
+                              f"{norm(v)} is not a method of {obj.name}")
+                continue
+            _check_validator_method(res, mod, obj, meth, inner, key)
+        # the notifier must be installed too (items events; C05-C07, C14)
+        nv = kws.get("notifiers")
+        ok = nv is not None and any(is_self_attr(x, "notifier", selfn)
+                                    for x in ast.walk(nv))
+        res.oblige(ok, f"{obj.name}:notifiers", mod.loc(sup[0]),
+                   f"{obj.name}.__init__ does not install self.notifier")
+    res.floor(4)
+
+
+def _check_validator_method(res, mod, obj, meth, inner, key):
+    ps = [a.arg for a in meth.args.args]
+    selfn, valn = ps[0], ps[1]
+    fl = ReturnFlow(mod, meth, f"{obj.name}.{meth.name}")
+    fl.run(frozenset())
+    validated_returns = 0
+    for ret, facts, nid in fl.returns:
+        v = ret.value
+        k2 = f"{key}:{meth.name}:return:{norm(v) if v else None}"
+        if isinstance(v, ast.Name) and v.id == valn:
+            none_fact = any(f[0] == "T" and f[1].endswith(" is None")
+                            for f in facts)
+            res.oblige(none_fact, k2, mod.loc(ret),
+                       f"{meth.name} returns the unvalidated `{valn}` on a "
+                       f"path where neither the owner, the trait nor its "
+                       f"validate is None")
+            continue
+        # must be <something resolving to X.<inner>.validate>(obj, name, value)
+        ok = False
+        if isinstance(v, ast.Call):
+            f = v.func
+            if isinstance(f, ast.Name):
+                f = _resolve_alias(meth, f.id) or f
+            ftxt = norm(f)
+            ok = (ftxt.endswith(f".{inner}.validate")
+                  and len(v.args) == 3 and norm(v.args[2]) == valn)
+        validated_returns += ok
+        res.oblige(ok, k2, mod.loc(ret),
+                   f"{meth.name} returns `{norm(v) if v else None}`, not the "
+                   f"result of <trait>.{inner}.validate(object, name, {valn})")
+    res.oblige(validated_returns >= 1, f"{key}:{meth.name}:validates",
+               mod.loc(meth), f"{meth.name} never calls {inner}.validate")
